@@ -8,7 +8,9 @@ import json, os, shutil, subprocess, sys, time
 
 prop, src = sys.argv[1], sys.argv[2].rstrip('/')
 extra = sys.argv[3:]
-name = '%s-%s%s' % (prop, 'r2' if '/mut2/' in src else '', os.path.basename(src))
+import re as _re
+_m = _re.search(r'/mut(\d+)/', src)
+name = '%s-%s%s' % (prop, ('r' + _m.group(1)) if _m else '', os.path.basename(src))
 wt = '/tmp/evalwt-%s' % name
 patch = os.path.join(src, 'patch.diff')
 
